@@ -67,6 +67,12 @@ def make_class(kind, fmt, akind, sign, k):
         else:                                          # raw memory access through the map base
             mm = getattr(self, "m" + fmt)
             addr = self.r[m.base_register] + self.__dict__["v"]
+            if kind.startswith("memr"):
+                # ... or through a register of the program's own choice holding the map's address (any register:
+                # r9, where XDP programs keep the packet, is an ordinary register for such an access)
+                no = int(kind[4:])
+                self.r[no] = self.r[m.base_register] + 0
+                addr = self.r[no] + self.__dict__["v"]
             if sign > 0:
                 mm[addr] += a
             else:
@@ -91,6 +97,14 @@ def shapes(ctx):
                     out.append((kind, fmt, "const", sign, k))
                 for akind in ("reg", "expr"):
                     out.append((kind, fmt, akind, sign, 7 if akind == "reg" else None))
+    # raw memory reached through every register a program may use for an address
+    for no in (2, 4, 6, 8, 9):
+        for fmt in FMTS:
+            for sign in (1, -1):
+                out.append((f"memr{no}", fmt, "const", sign, 5 if sign > 0 else 3))
+                if no in (6, 9):
+                    out.append((f"memr{no}", fmt, "reg", sign, 7))
+                    out.append((f"memr{no}", fmt, "expr", sign, None))
     return out
 
 
